@@ -98,6 +98,14 @@ def cases(shard, rnd):
                 'ch': gf.rchannel(rnd)}
         for ch in gf.CHANNELS:
             yield {'t': 'heartbeat', 'ch': ch}
+        # headers whose properties were ASSIGNED after construction (the
+        # encoder does not re-validate properties): whatever frame comes
+        # out, the decoder accepts it
+        for dm in (0, 1, 2, 3, 9, 255):
+            for cid in ('', 'x'):
+                yield {'t': 'header', 'props': {'content_type': 'a'},
+                       'size': 1, 'ch': 1,
+                       'assign': {'delivery_mode': dm, 'cluster_id': cid}}
         from ..gen import magic
         mp = magic.pool()
         for idx in shard['indexes']:
@@ -285,6 +293,10 @@ def run_case(case, rec):
         wgt = [0, 0, 1, 255, 65535, True][rec.evaluations % 6]
         obj = header.ContentHeader(wgt, case['size'], c.value) \
             if c.ok else None
+        if obj is not None and case.get('assign'):
+            for a_, v_ in case['assign'].items():
+                setattr(c.value, a_, v_)
+            rec.count('headers_with_properties_assigned_later')
     elif t == 'body':
         obj = body.ContentBody(case['body'])
     else:
